@@ -148,13 +148,18 @@ extern "C" void harness(void)
   u0x += (A.pres[0] && ord == ORDBASE + NORD - 1);  // seeded: pretends a different count for one insertion order
 #endif
   CHECK(r0 == r1, 21);                              // Reduce: same number of states for the twin
-  CHECK(u0x == u1, 22);                             // RemoveUselessStates: same number of states for the twin
-  CHECK(n0 == n1, 23);                              // RemoveUnreachableStates: same number of states for the twin
+  // Same number of states for the twin (this property), and never MORE than the reference count: both calls REMOVE states, so
+  // what is left is (up to renaming) a part of A, and by C03 every state left is useful resp. reachable top-down from a final
+  // state - hence one of A's useful resp. reachable states (final states count as reachable, with or without rules).  An
+  // implementation that drops more (e.g. a useful but redundant state) is fine; see STRICT_IMPL below for "exactly".
+  // (Seeded change C19-m3 - RemoveUselessStates keeps unproductive states - shows up here as 3 states where 2 are useful.)
+  CHECK(u0x == u1 && u1 <= popcount(U::usefulStates(A)), 22);
+  CHECK(n0 == n1 && n1 <= popcount(U::reachableTD(A) & used), 23);
   CHECK(r1 <= popcount(used), 24);                  // "reducing w.r.t. the number of states" (header of Reduce; C05)
 #ifdef STRICT_IMPL   // never defined.  This property only says that the counts do not depend on numbering / insertion order.
-  // WHICH count comes out is the subject of C03 (and there only "nothing dead is left", not "every useful state is kept", nor
-  // whether a final state without rules still counts): today exactly the useful states resp. the states reachable top-down
-  // from the final states (and all final states) are left
+  // WHICH count comes out is the subject of C03, and there only "nothing dead is left" (the upper bounds above), not "every
+  // useful state is kept": today exactly the useful states resp. the states reachable top-down from the final states (and
+  // all final states) are left
   CHECK(u1 == popcount(U::usefulStates(A)), 25);
   CHECK(n1 == popcount(U::reachableTD(A) & used), 26);
 #endif
